@@ -16,6 +16,12 @@
   `raise`, `pass`); methods with a single `return` at the end.  Calls of `self.reset()` /
   `self.__init__()` are inlined by the translator.  `print(..)` is dropped.  Python `int`/`float`
   mixing is limited to the literal `0` (compared with a float in `SqrtOperation`).
+
+  For the offline visitor (`stl/discrete_time/offline/ast_visitor.py`) the subset also has lists of
+  floats: `len`, slices, `[x] * n`, list comprehensions over `range`, a list or `zip` of two lists,
+  `min`/`max` of a list, `reversed`, `+` on lists, `for x in list`, `for i in range(a, b, -1)`,
+  `append` / `reverse` / `insert(0, ·)` on a local list.  Lists are values: aliasing between a
+  caller's list and a result list cannot be expressed (C11 is decided on the real code).
 -/
 import Rtamt.Discrete.Offline
 
@@ -30,9 +36,10 @@ inductive V (α : Type)
   | deque (cap : Nat) (l : List α)
   | dlist (l : List (Nat × List α))
   | cmp (c : Cmp)
+  | list (l : List α)                -- a Python list of floats (results of the offline visitor)
   deriving Repr, Inhabited
 
-inductive UnOp | neg | abs | sqrt | exp | ln | not
+inductive UnOp | neg | abs | sqrt | exp | ln | not | truthy
   deriving DecidableEq, Repr, Inhabited
 
 inductive BinOp | add | sub | mul | div | min | max | pow | log | lt | le | gt | ge | eq | ne | or | and
@@ -50,6 +57,14 @@ inductive E
   | newDeque (cap : E)               -- collections.deque(maxlen=cap)
   | emptyList                        -- []
   | noneLit                          -- None
+  | len (e : E)                      -- len(e)
+  | slice (e lo hi : E)              -- e[lo:hi]   (a missing bound is `int 0` / `noneLit`)
+  | rep (e n : E)                    -- [e] * n
+  | compRange (body : E) (x : String) (lo hi : E)      -- [body for x in range(lo, hi)]
+  | compList (body : E) (x : String) (it : E)          -- [body for x in it]
+  | compZip (body : E) (x y : String) (a b : E)        -- [body for x, y in zip(a, b)]
+  | agg (isMax : Bool) (e : E)       -- min(e) / max(e) of one list
+  | reversed (e : E)                 -- reversed(e)
   | unsupported (what : String)
   deriving Repr, Inhabited
 
@@ -62,6 +77,11 @@ inductive S
   | for_ (i : String) (lo hi : E) (body : S)             -- for i in range(lo, hi)
   | ite (c : E) (t e : S)
   | raise (k : PyErr)
+  | forIn (x : String) (it : E) (body : S)               -- for x in it   (it: a list of floats)
+  | forDown (i : String) (hi lo : E) (body : S)          -- for i in range(hi, lo, -1)
+  | appendLoc (x : String) (e : E)                       -- x.append(e)   (x local: list or deque)
+  | reverseLoc (x : String)                              -- x.reverse()
+  | insertLoc (x : String) (pos e : E)                   -- x.insert(pos, e)
   | unsupported (what : String)
   deriving Repr, Inhabited
 
@@ -103,6 +123,25 @@ def dqAppend (cap : Nat) (l : List α) (x : α) : List α :=
 
 def numEq (a b : α) : Bool := !Val.lt a b && !Val.lt b a
 
+/-- A Python list of floats; `[]` is represented by `dlist []` as well (the literal `[]`). -/
+def asList : V α → Option (List α)
+  | .list l => some l
+  | .dlist [] => some []
+  | _ => none
+
+def numOf : V α → Except PyErr α
+  | .num x => .ok x
+  | _ => .error .type
+
+/-- Python slice bounds on a sequence of length `n`: negative indices count from the end, everything is clamped. -/
+def sliceIdx (n : Nat) (i : Int) : Nat :=
+  if i < 0 then (n + i).toNat else min i.toNat n
+
+def pySlice (l : List α) (lo : Int) (hi : Option Int) : List α :=
+  let i := sliceIdx l.length lo
+  let j := match hi with | some h => sliceIdx l.length h | none => l.length
+  (l.drop i).take (j - i)
+
 def evalUn : UnOp → V α → Except PyErr (V α)
   | .neg, .num x => .ok (.num (Val.neg x))
   | .neg, .int n => .ok (.int (-n))
@@ -111,6 +150,8 @@ def evalUn : UnOp → V α → Except PyErr (V α)
   | .exp, .num x => .ok (.num (Val.exp x))
   | .ln, .num x => .ok (.num (Val.ln x))
   | .not, .bool b => .ok (.bool (!b))
+  | .truthy, .none => .ok (.bool false)
+  | .truthy, .bool b => .ok (.bool b)
   | _, _ => .error .type
 
 /-- Only the integer literal `0` is ever mixed with floats. -/
@@ -147,6 +188,10 @@ def evalBin (op : BinOp) (a b : V α) : Except PyErr (V α) :=
   | .eq, (.int x, .int y) => .ok (.bool (decide (x = y)))
   | .or, (.bool x, .bool y) => .ok (.bool (x || y))
   | .and, (.bool x, .bool y) => .ok (.bool (x && y))
+  | .add, (x, y) =>
+      match asList x, asList y with
+      | some a, some b => .ok (.list (a ++ b))           -- list concatenation
+      | _, _ => .error .type
   | _, _ => .error .type
 
 def evalIdx : V α → V α → Except PyErr (V α)
@@ -156,6 +201,7 @@ def evalIdx : V α → V α → Except PyErr (V α)
       match l[i.toNat]? with
       | some (c, d) => .ok (.deque c d)
       | none => .error .index
+  | .list l, .int i => if i < 0 then .error .index else (idx l i.toNat).map .num
   | _, _ => .error .type
 
 def evalE (env : Env α) : E → Except PyErr (V α)
@@ -180,12 +226,58 @@ def evalE (env : Env α) : E → Except PyErr (V α)
       | _ => .error .type
   | .emptyList => .ok (.dlist [])
   | .noneLit => .ok .none
+  | .len e => do
+      match (← evalE env e) with
+      | .deque _ l => .ok (.int l.length)
+      | v => match asList v with
+             | some l => .ok (.int l.length)
+             | none => .error .type
+  | .slice e lo hi => do
+      match asList (← evalE env e), (← evalE env lo), (← evalE env hi) with
+      | some l, .int i, .int j => .ok (.list (pySlice l i (some j)))
+      | some l, .int i, .none => .ok (.list (pySlice l i none))
+      | _, _, _ => .error .type
+  | .rep e n => do
+      match (← evalE env e), (← evalE env n) with
+      | .num x, .int k => .ok (.list (List.replicate k.toNat x))
+      | _, _ => .error .type
+  | .compRange body x lo hi => do
+      match (← evalE env lo), (← evalE env hi) with
+      | .int a, .int b =>
+          if a < 0 then .error .type else do
+          let vs ← (List.range' a.toNat (b - a).toNat).mapM
+            (fun k => do numOf (← evalE { env with loc := setKey x (.int (k : Nat)) env.loc } body))
+          pure (.list vs)
+      | _, _ => .error .type
+  | .compList body x it => do
+      match asList (← evalE env it) with
+      | some l => do
+          let vs ← l.mapM (fun v => do numOf (← evalE { env with loc := setKey x (.num v) env.loc } body))
+          pure (.list vs)
+      | none => .error .type
+  | .compZip body x y a b => do
+      match asList (← evalE env a), asList (← evalE env b) with
+      | some l, some r => do
+          let vs ← (l.zip r).mapM (fun p => do
+            numOf (← evalE { env with loc := setKey y (.num p.2) (setKey x (.num p.1) env.loc) } body))
+          pure (.list vs)
+      | _, _ => .error .type
+  | .agg isMax e => do
+      match asList (← evalE env e) with
+      | some l => (if isMax then pymax l else pymin l).map .num
+      | none => .error .type
+  | .reversed e => do
+      match asList (← evalE env e) with
+      | some l => .ok (.list l.reverse)
+      | none => .error .type
   | .unsupported _ => .error .other
 
 /-- `target.append(v)`. -/
 def appendV : V α → V α → Except PyErr (V α)
   | .deque c l, .num x => .ok (.deque c (dqAppend c l x))
+  | .dlist [], .num x => .ok (.list [x])
   | .dlist l, .deque c d => .ok (.dlist (l ++ [(c, d)]))
+  | .list l, .num x => .ok (.list (l ++ [x]))
   | _, _ => .error .type
 
 def exec : S → Env α → Except PyErr (Env α)
@@ -223,6 +315,29 @@ def exec : S → Env α → Except PyErr (Env α)
       | .bool false => exec e env
       | _ => throw .type
   | .raise k, _ => .error k
+  | .forIn x it body, env => do
+      match asList (← evalE env it) with
+      | some l => l.foldlM (fun env v => exec body { env with loc := setKey x (.num v) env.loc }) env
+      | none => throw .type
+  | .forDown i hi lo body, env => do
+      match (← evalE env hi), (← evalE env lo) with
+      | .int a, .int b =>
+          ((List.range (a - b).toNat).map (fun (j : Nat) => a - (j : Int))).foldlM
+            (fun env k => exec body { env with loc := setKey i (.int k) env.loc }) env
+      | _, _ => throw .type
+  | .appendLoc x e, env => do
+      let v ← evalE env e
+      let t ← getKey x env.loc
+      let t' ← appendV t v
+      pure { env with loc := setKey x t' env.loc }
+  | .reverseLoc x, env => do
+      match asList (← getKey x env.loc) with
+      | some l => pure { env with loc := setKey x (.list l.reverse) env.loc }
+      | none => throw .type
+  | .insertLoc x pos e, env => do
+      match asList (← getKey x env.loc), (← evalE env pos), (← evalE env e) with
+      | some l, .int 0, .num v => pure { env with loc := setKey x (.list (v :: l)) env.loc }
+      | _, _, _ => throw .type
   | .unsupported _, _ => .error .other
 
 /-- Call of a method on an object with attribute store `self`. -/
